@@ -226,7 +226,7 @@ class Ctx:
         seen = 0
         bad = []
         for m in re.finditer(
-            r"'([^']+)' (does not depend on any axioms|depends on axioms: \[([^\]]*)\])", out
+            r"^'(.+)' (does not depend on any axioms|depends on axioms: \[([^\]]*)\])", out, re.M
         ):
             seen += 1
             axs = set(a.strip() for a in (m.group(3) or "").replace("\n", " ").split(",") if a.strip())
@@ -338,13 +338,13 @@ class Ctx:
         n_viol = 0
         for n, f in enumerate(self.failures):
             path = REPLAY / f"{self.prop}-{self.seed}-{n}.json"
-            path.write_text(json.dumps({"property": self.prop, **f, "marks": self.marks}, indent=1, default=str))
+            path.write_text(json.dumps({"property": self.prop, "verif_seed": self.seed, "tier": self.tier, **f, "marks": self.marks}, indent=1, default=str))
             lines.append(f"VIOLATION property={self.prop} replay={path}")
             n_viol += 1
             rc = 1
         if self.marks and not self.failures:
             path = REPLAY / f"{self.prop}-{self.seed}-unproved.json"
-            path.write_text(json.dumps({"property": self.prop, "no_longer_checks": self.marks,
+            path.write_text(json.dumps({"property": self.prop, "verif_seed": self.seed, "tier": self.tier, "no_longer_checks": self.marks,
                                         "known_findings_hit": self.known_hits}, indent=1, default=str))
             lines.append(f"VIOLATION property={self.prop} replay={path} no-failing-input-found")
             n_viol += 1
@@ -376,6 +376,32 @@ class Ctx:
         return rc
 
 
+def generic_replay(mod, prop, data):
+    """Replay for checks without their own: re-run the check with the seed and tier stored in the replay file (all
+    randomness derives from them, so the same cases are regenerated on the implementation) and report whether the stored
+    signature fails again. Exit 1 if it still fails, 0 if not."""
+    seed = int(data.get("verif_seed", 0))
+    tier = data.get("tier", "quick")
+    want = data.get("signature")
+    print(f"replaying {prop}: seed={seed} tier={tier} signature={want!r}")
+    print("stored case:", json.dumps(data.get("replay", data.get("no_longer_checks", "")), default=str)[:2000])
+    ctx = Ctx(prop, tier, seed, getattr(mod, "LEVEL", "proof"))
+    mod.run(ctx)
+    again = [f for f in ctx.failures if want is None or f["signature"] == want]
+    known = [h for h in ctx.known_hits if h["signature"] == want]
+    for f in again:
+        print("STILL FAILING:", f["signature"], "--", f["what"])
+        print("  observed now:", json.dumps(f["replay"], default=str)[:2000])
+    if known:
+        print("reported as KNOWN-FINDING now:", want)
+    if not again and not known:
+        print("does not fail any more on the current tree" + (f" (marks: {[m['kind'] for m in ctx.marks]})" if ctx.marks else ""))
+    import shutil
+
+    shutil.rmtree(ctx._tmp, ignore_errors=True)
+    return 1 if again else 0
+
+
 def main(argv=None):
     argv = list(sys.argv[1:] if argv is None else argv)
     if not argv:
@@ -404,8 +430,7 @@ def main(argv=None):
         data = json.loads(Path(replay).read_text())
         if hasattr(mod, "replay"):
             return mod.replay(data)
-        print(json.dumps(data, indent=1))
-        return 0
+        return generic_replay(mod, prop, data)
     ctx = Ctx(prop, tier, seed, getattr(mod, "LEVEL", "proof"))
     try:
         mod.run(ctx)
